@@ -688,6 +688,12 @@ def run_gae(case, ctx):
                 ctx.count("gae:ask" + (":real-es" if real_es else ""))
                 continue
             if o == "tell":
+                if real_es and have_grad and last_ask is None:
+                    # a real strategy that was never asked has no batch to be told about (tell() without any ask() is
+                    # out of protocol in a way the property does not speak about; histories shortened by the shrinker
+                    # get here): not called, not judged
+                    ctx.count("gae:tell-skipped(real strategy never asked)")
+                    continue
                 status = [int(v) for v in op["status"]]
                 perm = [int(v) for v in op["perm"]]
                 script["perm"] = perm
